@@ -16,7 +16,7 @@ def run(rep):
                'refutation search: real get_value/unify under binding histories vs the spec mirror (resolve)',
                'term pairs up to 3/4 nodes under <=3 earlier active unifications')
     if os.path.exists(os.path.join(fw.VERIF, 'standin', 's_c15.py')):
-        fw.standin(rep, 's_c15.py', ['run', rep.seed, 300 if q else 5000],
+        fw.standin(rep, 's_c15.py', ['run', rep.seed, 1200 if q else 8000],
                    'values collected during an enumeration compared after the query has finished (API histories, programs, findall, asserted facts)',
                    'random binding histories and F1/F3 programs')
     rep.notes.append('get_value(t) == resolve(t, store): the fully dereferenced term, for every store (any binding order); resolve '
